@@ -6,7 +6,7 @@ import ast
 from sa.astx import call_attr, call_name, dotted, src, walk_local
 from sa.effects import class_accesses
 from sa.selftest import Mutant, Silent
-from sa.props._lib_j import (asserted_eq, catching_handler, edge_asserts, enclosing_trys, is_self_attr, no_exc, node_calls,
+from sa.props._lib_j import (asserted_eq, catching_handler, edge_asserts, enclosing_trys, is_self_attr, no_exc, node_calls, body_always_entered, run_sections,
                              normal_exits, params, resolve, rsrc)
 
 PROPERTY = "C50"
@@ -23,6 +23,7 @@ EXPLANATION = (
     "known_findings.d/C50.json); (c) unlock removes only when int(readlink(name)) == os.getpid() and then clears locked; "
     "isLocked releases what it acquired; the POSIX primitives are os.symlink/readlink/remove/kill and the Windows emulation "
     "publishes the lock name only by rename from a unique temporary. Not decided: the interleaving semantics themselves."
+    "Every anchor function is also checked to be entered on every call (no memoising/wrapping decorator, duplicate definition or rebinding). "
 )
 ASSUMPTIONS = [
     "os.symlink is an atomic create-if-absent (fails with EEXIST)",
@@ -47,7 +48,7 @@ def _errno_set(t, lab):
     return None
 
 
-def check(ctx):
+def _s_lock(ctx, S):
     mod = ctx.mod(LF)
     cls = ctx.cls(LF, "FilesystemLock")
     f = ctx.func(LF, "FilesystemLock.lock")
@@ -56,7 +57,8 @@ def check(ctx):
 
     creates = node_calls(g, lambda c: call_name(c) == "symlink")
     ctx.check(len(creates) == 1, "acquire/single-atomic-create", q, f"lock() contains {len(creates)} symlink() calls (exactly one atomic create expected)")
-    ctx.need(creates, "symlink(...) call in FilesystemLock.lock")
+    if not creates:
+        return      # the violation above is the verdict: without the atomic create nothing else in lock() can be judged
     cn, cc = creates[0]
     ok = len(cc.args) == 2 and src(cc.args[0]) == "str(os.getpid())" and src(cc.args[1]) == "self.name"
     ctx.check(ok, "acquire/create-names-own-pid", ctx.construct(q, "symlink(<pid>, <name>)"),
@@ -142,6 +144,9 @@ def check(ctx):
                   ctx.construct(q, "kill(<owner pid>, 0) succeeded"),
                   "when the probe shows the owner alive, lock() does not answer False on every path (it may break or claim a live lock)", witness=g.describe(w))
 
+
+
+def _s_unlock(ctx, S):
     # (c) unlock
     f = ctx.func(LF, "FilesystemLock.unlock")
     g = ctx.cfg(f)
@@ -164,6 +169,9 @@ def check(ctx):
     raises = g.ids(lambda n: n.kind == "stmt" and isinstance(n.ast, ast.Raise))
     ctx.check(any("ValueError" in src(g.node(r).ast) for r in raises), "unlock/foreign-lock-rejected", q, "unlock() of a lock owned by another process does not raise ValueError")
 
+
+
+def _s_probe(ctx, S):
     # isLocked releases what it took
     f = ctx.func(LF, "isLocked")
     g = ctx.cfg(f)
@@ -178,6 +186,10 @@ def check(ctx):
     rets = [g.node(x).ast for x in normal_exits(g)]
     ctx.check(all(isinstance(r, ast.Return) and src(r.value) == f"not {resname}" for r in rets), "probe/answer", q, "isLocked() does not answer `not acquired`")
 
+
+
+def _s_posix(ctx, S):
+    mod = ctx.mod(LF)
     # POSIX primitives
     want = {"kill": "kill", "readlink": "readlink", "rmlink": {"remove", "unlink"}, "symlink": "symlink"}
     got = {}
@@ -193,6 +205,9 @@ def check(ctx):
     ctx.check(isinstance(par, ast.If) and src(par.test) == "not platform.isWindows()" and any(imp[0] is s for s in par.body), "primitives/posix",
               "twisted.python.lockfile | platform switch", "the os primitives are not selected under `not platform.isWindows()`")
 
+
+
+def _s_windows(ctx, S):
     # Windows emulation: the lock name appears only by rename from a unique temporary
     ws = ctx.func(LF, "symlink")
     qw = "twisted.python.lockfile.symlink(win32)"
@@ -209,6 +224,16 @@ def check(ctx):
         w = gws.path([h_.id], [gws.exit], edge_ok=no_exc)
         ctx.check(w is None, "windows/create-failure-propagates", ctx.construct(qw, f"except {src(h_.ast.type)}"),
                   "a failed rename (lock exists) is swallowed by the emulated symlink: lock() would believe it created the lock")
+
+
+def _s_body(ctx, S):
+    body_always_entered(ctx, LF, ["FilesystemLock.lock", "FilesystemLock.unlock", "isLocked"], "anchor/body-entered-on-every-call", "twisted.python.lockfile",
+                        "lock()/unlock() must consult the filesystem on every call; a memoised or wrapped call reports a lock state that is no longer true")
+
+
+def check(ctx):
+    run_sections(ctx, [("lock", _s_lock), ("unlock", _s_unlock), ("isLocked", _s_probe), ("posix-primitives", _s_posix), ("windows-emulation", _s_windows),
+                       ("body-entered", _s_body)])
 
 
 def _parents(node):
